@@ -7,7 +7,7 @@ name="$1"; patch="$(readlink -f "$2")"; shift 2
 root=/tmp/mut/$name
 rm -rf "$root"; mkdir -p "$root"
 git -C /repo worktree add -q --detach "$root/repo" HEAD || exit 2
-cleanup() { git -C /repo worktree remove --force "$root/repo" 2>/dev/null; rm -rf "$root"; git -C /repo worktree prune; }
+cleanup() { [ -n "${KEEP:-}" ] && return; git -C /repo worktree remove --force "$root/repo" 2>/dev/null; rm -rf "$root"; git -C /repo worktree prune; }
 trap cleanup EXIT
 ( cd "$root/repo" && git apply "$patch" ) || { echo "== $name: patch does not apply"; exit 2; }
 cp /repo/Cargo.lock "$root/repo/" 2>/dev/null
